@@ -191,7 +191,17 @@ class PG:
             out.append(f'{indent}with contextlib.suppress(KeyError) as cm:')
             out.append(f'{indent}    {v} = {e}')
             self.own.append(v)
-        elif r < 0.90:
+        elif r < 0.84:
+            # an optional config entry: present in some builds, absent (NameError, handled) in others
+            v = self.fresh()
+            nm = rng.choice(['extra0', 'extra1'])
+            out.append(f'{indent}try:')
+            out.append(f'{indent}    {v} = {nm} + {e}')
+            out.append(f'{indent}except NameError:')
+            out.append(f'{indent}    {v} = -7')
+            self.own.append(v)
+            self.used_cfg.add(nm)
+        elif r < 0.92:
             k = rng.random()
             v = self.fresh()
             if k < 0.5:
@@ -242,7 +252,7 @@ def gen_program(rng):
     return '\n'.join(lines), kind, sorted(pg.used_cfg)
 
 
-FSTR = ['{c0} and {c1 + 1}', 'x={s0!r} y={c2:>5}', '{elems[0]:03d}|{data["a"]}', '{c0 * 2:.2f} {helper(c1)}', 'plain', '{sum(x for x in elems)}',
+FSTR = ['{max} {abs}', '{c0} and {c1 + 1}', 'x={s0!r} y={c2:>5}', '{elems[0]:03d}|{data["a"]}', '{c0 * 2:.2f} {helper(c1)}', 'plain', '{sum(x for x in elems)}',
         '{c3} shadowed by a symbol', '{ {"k": c0}["k"] }', "{'%s' % c1}", '{len(elems)}{len2 if False else ""}']
 
 
@@ -252,6 +262,12 @@ def gen_env(rng):
     sym = {'s0': rng.randrange(0, 50), 's1': rng.randrange(1, 9), 'c3': 1000 + rng.randrange(0, 9), 'hk': rng.randrange(1, 4)}
     if rng.random() < 0.3:
         sym['len'] = 'LEN'          # a symbol shadowing a builtin: marks with a lambda built in run()
+    # names that exist in some builds of a history only (config entries named like builtins, optional entries)
+    for name in ('extra0', 'extra1'):
+        if rng.random() < 0.5:
+            cfg[name] = rng.randrange(100, 200)
+    if rng.random() < 0.25:
+        cfg[rng.choice(['max', 'abs', 'sorted', 'min'])] = rng.randrange(2, 9)
     return cfg, sym
 
 
